@@ -12,6 +12,8 @@ def run(ctx):
     found = False
     # tie: runs under every kind of cap, with queries at levels below / at / beyond the level reached
     cases = m1lib.gen_cases(ctx, ctx.n(60, 1200))
+    # level queries on a fingerprinter that has just processed another conformer of the same molecule object
+    cases += m1lib.reused_cases(ctx, 7, ctx.n(4, 12))
     found |= m1lib.run_cases(ctx, cases, 'C12 model/implementation tie (capped and uncapped runs, level queries)') > 0
     # search on the implementation: one run to L queried at every k against separate runs capped at k; -1 against runs past convergence
     stats = {'truncation_pairs': 0, 'limit_pairs': 0, 'nest_pairs': 0}
@@ -70,7 +72,4 @@ def run(ctx):
 
 
 def replay(ctx, path):
-    import json
-    d = json.load(open(path))
-    print(json.dumps({k: v for k, v in d['case'].items() if k != 'molblock'}, indent=1)[:6000])
-    return 0
+    return m1lib.replay_case(ctx, path)
